@@ -547,11 +547,32 @@ func (c *Ctx) freshSlice(v ssa.Value, depth int) (bool, string) {
 			return c.freshSlice(x.Call.Args[0], depth+1)
 		}
 		if g := eng.StaticCallee(x.Common()); g != nil && eng.InModule(g) && g.Blocks != nil {
+			// a runner's result is what the callback given at this call returns
+			if eng.RunnerParam(g) >= 0 {
+				if rets, h := eng.ReturnedValues(x, 0); h != nil && h != g && len(rets) > 0 {
+					for _, rv := range rets {
+						if ok, why := c.freshSlice(rv, depth+1); !ok {
+							return false, why
+						}
+					}
+					return true, ""
+				}
+			}
 			return c.freshResult(g, 0, depth+1)
 		}
 	case *ssa.Extract:
 		if call, ok := x.Tuple.(*ssa.Call); ok {
 			if g := eng.StaticCallee(call.Common()); g != nil && eng.InModule(g) && g.Blocks != nil {
+				if eng.RunnerParam(g) >= 0 {
+					if rets, h := eng.ReturnedValues(call, x.Index); h != nil && h != g && len(rets) > 0 {
+						for _, rv := range rets {
+							if ok, why := c.freshSlice(rv, depth+1); !ok {
+								return false, why
+							}
+						}
+						return true, ""
+					}
+				}
 				return c.freshResult(g, x.Index, depth+1)
 			}
 		}
